@@ -118,16 +118,20 @@ func RunExh(id string, c ExhCase, h *Hooks) ExhOutcome {
 // nLong long runs. Pure function of (seed, arguments).
 func RandomSuite(seed int64, salt string, n, ops, nLong, longOps int) []*Program {
 	var out []*Program
-	slots := []int{2, 3, 4, 5, 8, 16, 2, 4}
+	// mixed radix over (balancing, uniqueness, slot length), so that every combination of the three is
+	// run (24 owned configurations; requested lengths 3 and 5 exercise NewStoreInfo's rounding and run
+	// as 2 and 4); key kind and program class are drawn from the program's own generator
+	slots := []int{2, 4, 3, 8, 5, 16}
 	nkeys := []int{3, 5, 8, 12, 20, 40, 80}
 	kinds := []string{"func", "int", "iface"}
 	for i := 0; i < n; i++ {
 		rnd := env.Rand(seed, fmt.Sprintf("%s-rand-%d", salt, i))
-		cfg := Config{Variant: "owned", ReqSlot: slots[i%len(slots)], Unique: (i/2)%2 == 0, Balance: i%2 == 0, KeyKind: kinds[rnd.Intn(len(kinds))]}
+		cfg := Config{Variant: "owned", ReqSlot: slots[(i/4)%len(slots)], Unique: (i/2)%2 == 0, Balance: i%2 == 0, KeyKind: kinds[rnd.Intn(len(kinds))]}
 		if i%7 == 3 {
 			// as shipped: inmemory.NewBtree (slot length 8, no balancing, default comparer)
 			cfg = Config{Variant: "shipped", ReqSlot: 8, Unique: (i/7)%2 == 0, Balance: false, KeyKind: []string{"int", "iface"}[rnd.Intn(2)]}
 		}
+		stale := rnd.Intn(4) == 0
 		spec := GenSpec{NKeys: nkeys[rnd.Intn(len(nkeys))], Ops: ops, ScanProb: 25}
 		if cfg.Variant == "shipped" {
 			spec.ScanProb = 6
@@ -137,7 +141,7 @@ func RandomSuite(seed int64, salt string, n, ops, nLong, longOps int) []*Program
 			spec.NKeys = 40
 		}
 		class := "rand"
-		if i%4 == 1 {
+		if stale {
 			spec.Stale = true
 			class = "stale"
 		}
@@ -430,5 +434,7 @@ func Run(r *report.Run) int {
 			"cursor state after anything but a successful Find*/First/Last/Next/Previous is unspecified: stale-cursor calls are only required to do nothing (false) or exactly one legal change (true)",
 			"an error is accepted only together with false on a key update that would change the order; any other error is reported",
 			"item ids are random (sop.NewUUID); behaviour must not depend on them, replay is by program",
+			"the structural walk of the repository (sorted slots, counts, parent/child ids, reachability) only raises alarms; a verdict needs a divergence in a public observation (call result, Count(), First/Next or Last/Previous scan). Alarms and the ones no public scan confirmed are counted in the evidence",
+			"signature shape tag: @even = all leaves at one depth and no nil child pointer before the operation, @uneven = anything else, @? = repository not observable (shipped constructor)",
 		}, 20)
 }
